@@ -257,6 +257,14 @@ func RunSharded(t *testing.T, cases []Case, run func(t *testing.T, c Case, rec *
 			for i := range ch {
 				c := cases[i]
 				rec := &Rec{}
+				// which case this worker is on: after a crash of the whole process (a panic in a goroutine of the
+				// code under test cannot be recovered here) the orchestration re-runs the suspects one by one
+				if dir := os.Getenv("VERIF_OUT"); dir != "" {
+					os.WriteFile(fmt.Sprintf("%s/progress.%d", dir, shard), []byte(fmt.Sprint(i)), 0o644)
+				}
+				if c.Cfg.Bool("skip") { // placeholder keeping the case numbering stable in a re-run
+					continue
+				}
 				func() {
 					defer func() {
 						if r := recover(); r != nil {
